@@ -10,6 +10,14 @@ NOT_BUILT = "rules designed (DESIGN.md sections 3-4) but not built yet; not clai
 
 # property -> (technique, level text, level note, design ref)
 CLAIMED = {
+ "C02": ("same-name agreement of the operator tables along the pipeline (ops.Op -> code operator -> interpreter case -> runtime function -> metamethod name; string-arithmetic metamethods) read from SSA, plus must-edge proofs that every integer divisor is excluded from zero",
+         "Pairing only: each operator reaches the runtime function and the metamethod name of that operator, and integer division by zero is an error path, not a Go panic. The values the arithmetic helpers compute over int64 x float64 — what the property is about — are value-level and not decided.",
+         "Trusted: go/ssa; frozen operator tables. Not decided: every numeric result (wrap-around, floor division, mixed comparison, conversions, numerals, math library).",
+         "DESIGN.md 10.2 (C02), 6"),
+ "C19": ("the crash-and-runaway rules of C04/C05 restricted to findings located in lib/stringlib, lib/tablelib and luastrings: argument arity (dataflow over GoCont accessors), relative-bound proofs for normalised positions, sign and absolute-bound proofs for computed sizes, loop classification (metered / bounded / table-listed)",
+         "Only the 'never crashes, never runs away' corners of the string and table functions for extreme positions, counts and ranges. What the functions compute (the sequence and byte-string laws) is value-level and not decided.",
+         "Trusted: as for C04 and C05. Not decided: results of sub/byte/rep/find/insert/remove/move/concat/unpack/sort for every argument tuple.",
+         "DESIGN.md 10.2 (C19), 6"),
  "C15": ("switch exhaustiveness against the constants the pattern compiler emits; panic-instruction and dropped-error scan over the call closure of pattern.New; must-pass-through reachability on the CFG of find/match/gmatch/gsub (successful return only behind pattern.New, exemptions by branch-condition class); budget plumbing and cursor-writer sub-rules of the metering analysis",
          "Structural part only: item-type exhaustiveness, no panic and no dropped error in the pattern compiler, no unlisted shortcut around the compiler, matcher budget fed from and charged to the quota. The match semantics (pattern x subject) are value-level and not decided.",
          "Trusted: go/ssa; exemption table confirmed against the manual. Not decided: what the matcher returns.",
